@@ -219,16 +219,23 @@ def case_fourindex(case):
     n = case["n"]
     viols = []
     count = 0
+    # the target in every memory layout a caller may hold: C order, Fortran order, a transposed view, the leading
+    # sub-block of a larger tensor (e.g. the alpha block of a spin-orbital array), a reversed view
+    def targets():
+        big = np.zeros((n + 1,) * 4)
+        return {"C": np.zeros((n, n, n, n)), "F": np.zeros((n, n, n, n), order="F"), "transposed": np.zeros((n, n, n, n)).transpose(3, 1, 2, 0),
+                "sub-block": big[:n, :n, :n, :n], "reversed": np.zeros((n, n, n, n))[::-1, :, ::-1, :]}
+
     for idx in itertools.product(range(n), repeat=4):
-        arr = np.zeros((n, n, n, n))
-        set_four_index_element(arr, *idx, 1.25)
-        count += 1
-        got = {tuple(int(x) for x in t) for t in np.argwhere(arr != 0)}
-        want = _orbit(idx)
-        if got != want or not np.all(arr[arr != 0] == 1.25):
-            viols.append(_v("four-index", f"n={n} quadruple {idx}: filled {sorted(got)} expected orbit {sorted(want)}"))
-            if len(viols) > 5:
-                break
+        for lname, arr in targets().items():
+            set_four_index_element(arr, *idx, 1.25)
+            count += 1
+            got = {tuple(int(x) for x in t) for t in np.argwhere(arr != 0)}
+            want = _orbit(idx)
+            if got != want or not np.all(arr[arr != 0] == 1.25):
+                viols.append(_v("four-index", f"n={n} quadruple {idx} ({lname} layout): filled {sorted(got)} expected orbit {sorted(want)}"))
+        if len(viols) > 5:
+            break
     return viols, [f"fourindex:n={n}"], {"n": n, "quadruples": count}, count
 
 
